@@ -233,7 +233,10 @@ def _main(tier):
 def _exprs(tier):
     """expression-rich statements: SELECT <items from the full expression grammar> FROM t [WHERE cond] [follower]"""
     from gen.grammar import L, kw, W, seq, comma_list
-    rich = st.one_of(G.expr(2), G.expr(2), G.expr(1), st.tuples(G.expr(1), G.alias).map(lambda t: G.with_alias(*t)))
+    # a scalar subquery (with its own WHERE / lists / comparisons) as a call argument, over-clause operand or nested call argument
+    subq_call = st.tuples(st.sampled_from(G.FUNCS), G.select(1), st.one_of(st.none(), G.expr(0))).map(
+        lambda t: G.func_call(t[0], [W('paren', G.paren(t[1]), subquery=True)] + ([t[2]] if t[2] is not None else [])))
+    rich = G.weighted((3, G.expr(2)), (1, G.expr(1)), (1, st.tuples(G.expr(1), G.alias).map(lambda t: G.with_alias(*t))), (1, subq_call))
 
     def mk(items, where, follower):
         lex = seq(L('kw', 'SELECT', False, lead='SELECT'), W('list', comma_list([W('item', i) for i in items]), ctx='select', n=len(items)),
